@@ -253,6 +253,11 @@ func (e *Extractor) CaseTerm(info *types.Info, sw *ast.SwitchStmt, val int64, us
 	saveObj, saveVal := e.tagVar, e.tagVal
 	e.tagVar, e.tagVal = tagObj, &val
 	defer func() { e.tagVar, e.tagVal = saveObj, saveVal }()
+	if tagObj != nil {
+		// the tag has this value throughout the clause: nested tests of it are decided
+		e.known[tagObj] = val
+		defer delete(e.known, tagObj)
+	}
 	var stmts []ast.Stmt
 	for i := idx; i < len(clauses); i++ {
 		body := clauses[i].(*ast.CaseClause).Body
@@ -1274,7 +1279,13 @@ func (e *Extractor) stmt1(info *types.Info, s ast.Stmt) *node {
 					vv := v
 					e.tagVar, e.tagVal = info.Uses[id], &vv
 				}
+				if e.tagVar != nil {
+					swSnap[e.tagVar] = v
+				}
 				n := e.clauseBlock(info, swSnap, stmts)
+				if e.tagVar != nil {
+					delete(swSnap, e.tagVar)
+				}
 				if saveObj != nil || saveVal != nil || e.tagVar != nil {
 					e.tagVar, e.tagVal = saveObj, saveVal
 				}
